@@ -21,7 +21,7 @@ var c17Days = []ref.Date{{Y: 2024, M: 5, D: 15}, {Y: 2023, M: 12, D: 31}, {Y: 20
 var c17Roundings = []struct {
 	flag, cfg int
 }{{0, 0}, {5, 0}, {10, 0}, {12, 0}, {15, 0}, {20, 0}, {30, 0}, {60, 0}, {0, 5}, {0, 10}, {0, 12}, {0, 15}, {0, 20}, {0, 30}, {0, 60}}
-var c17Selections = []string{"default", "today", "yesterday", "tomorrow", "explicit-today", "explicit-other"}
+var c17Selections = []string{"default", "today", "yesterday", "tomorrow", "explicit-today", "explicit-other", "explicit-and-flag"}
 
 const c17Layouts = 5
 
@@ -29,7 +29,7 @@ func init() {
 	core.Register(&core.Prop{
 		ID:    "C17",
 		Level: "exploration",
-		Rule: "grid: ALL 1440 minutes of the day (seconds 0 / 59 alternating) x days {ordinary, Dec 31, month end, Feb 28 of a leap year, Feb 29, Mar 1, and the two days on which European/US/Australian zones change to and from daylight-saving time; the virtual clock carries such zones} x rounding {none, 5, 10, 12, 15, 20, 30, 60 via --round and via default_rounding} x date selection {default, --today, --yesterday, --tomorrow, explicit --date today / other} " +
+		Rule: "grid: ALL 1440 minutes of the day (seconds 0 / 59 alternating) x days {ordinary, Dec 31, month end, Feb 28 of a leap year, Feb 29, Mar 1, and the two days on which European/US/Australian zones change to and from daylight-saving time; the virtual clock carries such zones} x rounding {none, 5, 10, 12, 15, 20, 30, 60 via --round and via default_rounding} x date selection {default, --today, --yesterday, --tomorrow, explicit --date today / other, an explicit --date together with a contradicting --yesterday/--tomorrow/--today} " +
 			"x record layouts {open range today, only yesterday, both, none, today's record without open range} x 12h/24h files x commands {start, stop, switch} plus `total --now` and `json --now`. thorough = the full grid (exhaustive); quick = all minutes x all roundings x all selections on the ordinary day and Dec 31 with PRNG layouts, every 6th minute on the other days. " +
 			"oracle: reference arithmetic - r = minute rounded to the nearest multiple (ties up), the time written into a record dated D must denote the instant r relative to today, i.e. offset r + 1440*(today-D), in the file's clock convention; it is representable iff -1440 <= offset <= 2879, otherwise the command must fail with an error message and leave the file byte-identical; " +
 			"stop uses today's record if one exists, else yesterday's iff date and time were automatic; end >= start or error; --now adds now-start for today's and now+1440-start for yesterday's open ranges and refuses every other one. any panic is a violation. " +
@@ -161,6 +161,13 @@ func c17Cell(e *core.Env, r *core.Rand, file string, today ref.Date, minute, rou
 		d := today.Plus(r.PickInt(-1, 1, -9, 3))
 		cmd.Date = &d
 		cmd.DateSlash = r.Bool()
+	case "explicit-and-flag":
+		// the day named twice, differently: the explicit date says which record; whatever record is written to, the time
+		// must be the current instant relative to THAT record's date
+		d := today.Plus(r.PickInt(0, -1, 1, 0, -1, 1, -9))
+		cmd.Date = &d
+		cmd.DateSlash = r.Bool()
+		cmd.DateFlag = r.Pick("yesterday", "tomorrow", "today")
 	}
 	if kind == "start" && r.Chance(1, 4) {
 		cmd.Summary = []string{"task"}
@@ -361,6 +368,50 @@ func c17Now(e *core.Env, r *core.Rand, file string, today ref.Date, minute, layo
 				return
 			}
 			e.Count("now_cells_with_filter_evaluated", 1)
+		}
+	}
+	// `total --now` behind a filter that selects single entries (--tag on some entries, --entry-type): the filter selects first,
+	// what is left of each record is evaluated - an open range the filter has left out is neither closed nor an obstacle
+	{
+		q := []query{
+			{Tags: []ref.Tag{{Name: "late"}}, TagArgs: []string{"late"}}, {Tags: []ref.Tag{{Name: "t"}}, TagArgs: []string{"#t"}},
+			{EntryType: "range"}, {EntryType: "open-range"}, {EntryType: "duration"},
+		}[r.Intn(5)]
+		fa, _, _ := buildFilterArgs(q)
+		selRecs, _ := q.apply(rec.Doc, today)
+		sel := &ref.Doc{}
+		for _, er := range selRecs {
+			c := *er.Rec
+			c.Entries = nil
+			for _, k := range er.Entries {
+				c.Entries = append(c.Entries, er.Rec.Entries[k])
+			}
+			sel.Recs = append(sel.Recs, c)
+		}
+		fextra, _, fok := nowClosing(sel, today, minute)
+		fres := runRO(e, &cli.Total{NowArgs: util.NowArgs{Now: true}, FilterArgs: fa, DecimalArgs: util.DecimalArgs{Decimal: true}, WarnArgs: util.WarnArgs{NoWarn: true},
+			NoStyleArgs: util.NoStyleArgs{NoStyle: true}, InputFilesArgs: util.InputFilesArgs{File: files(file)}}, 1, "", "", clock)
+		how := "`klog total --now " + q.String() + "`"
+		switch {
+		case fres.Panic != nil:
+			e.Violation("now-panic: "+fres.Panic.Site(), how+": "+fres.Panic.Value, w)
+			return
+		case !fok && fres.Err == nil:
+			e.Violation("now-uncloseable-range-not-refused", fmt.Sprintf("%s at %s must refuse\n%s", how, w["clock"], fres.Out), w)
+			return
+		case fok && fres.Err != nil:
+			e.Violation("now-fails", fmt.Sprintf("%s at %s failed (%s) although every open range among the selected entries can be closed", how, w["clock"], fres.Err.Details()), w)
+			return
+		case fok:
+			fwant := 0
+			for i := range sel.Recs {
+				fwant += sel.Recs[i].Total() + fextra[i]
+			}
+			if to, perr := parseTotalOutput(fres.Out); len(sel.Recs) > 0 && (perr != nil || to.Total != strconv.Itoa(fwant)) {
+				e.Violation("now-total-wrong", fmt.Sprintf("%s at %s = %s, expected %d", how, w["clock"], to.Total, fwant), w)
+				return
+			}
+			e.Count("now_cells_with_entry_filter_evaluated", 1)
 		}
 	}
 	extra, _, ok := nowClosing(rec.Doc, today, minute)
